@@ -620,3 +620,16 @@ Proof.
   assert (G : (geo (Z.to_nat (fsize (lc_cfg lc))) <= geo (Z.to_nat (last_ack (l_snd st))))%Q) by (apply geo_mono; lia).
   split; [nra|]. nra.
 Qed.
+
+(* non-vacuity of parts 7 and 8: a run with drops; 3 expiries, 60 agenda steps, RTO above the bound *)
+Definition lc_ex2 : lcfg := mklcfg repaired (mkcfg 1 4 Reno) (1 # 1) [0; 2]%nat [1]%nat (1000000 # 1).
+Example work_and_rto_example :
+  lc_ok2 lc_ex2 /\
+  exists st, lrun 1000 lc_ex2 (linit (2 # 1) (65535 # 1) 1 []) = LQuiescent st /\ nexp st = 3%nat /\
+             3 + Gnew lc_ex2 * 4 + Cexp lc_ex2 * Z.of_nat (nexp st) = 777 /\
+             (0 < 1 * geo 4 <= rto (l_snd st))%Q.
+Proof.
+  split.
+  - constructor; [constructor; cbn; [reflexivity|lia|discriminate]|]. exists 4. cbn. lia.
+  - eexists. split; [vm_compute; reflexivity|]. split; [reflexivity|]. split; [reflexivity|]. split; vm_compute; [reflexivity|discriminate].
+Qed.
